@@ -41,6 +41,16 @@ enum BaseKind {
 
 /// The pre-existing target is longer than any generated document, so that a write that does not
 /// truncate shows, too.
+/// Texts the editor shows the server before going back to the text of the case: each fails in
+/// another phase (resolution, grammar, import, kinds, evaluation).
+const DETOURS: [&str; 5] = [
+    "res zq9 on get -> <>;\n",
+    "let = ;\n",
+    "use \"nowhere9.oal\";\nres / on get -> <>;\n",
+    "let a = num;\nres a on get -> <>;\n",
+    "res / on get -> <status=99, {}>;\n",
+];
+
 fn sentinel() -> &'static str {
     static S: std::sync::OnceLock<String> = std::sync::OnceLock::new();
     S.get_or_init(|| {
@@ -318,6 +328,36 @@ pub fn check_case(sources: &Sources, class: &str, cfg_ix: usize, base_ix: usize,
                                 format!("c13:language-server-disagrees:{}", expected.verdict()),
                                 format!("the pipeline says {}, oal-lsp published {total} diagnostic(s): {:?}", expected.verdict(), lsp.diags),
                             ));
+                        } else if let Some(detour) = DETOURS.get((sources.hash64() % 8) as usize) {
+                            // Five cases in eight: the editor opens the main module with another text
+                            // (one that fails in some phase), lets the server see it, and changes it
+                            // back to the text of the case: the verdict is that of the case again.
+                            let text = sources.files.get(&sources.main).cloned().unwrap_or_default();
+                            let res = lsp
+                                .did_open(&uri, detour)
+                                .and_then(|_| lsp.barrier(&uri))
+                                .and_then(|_| lsp.did_change(&uri, &[(None, text)]))
+                                .and_then(|_| lsp.barrier(&uri));
+                            match res {
+                                Ok(()) => {
+                                    r.evaluations += 1;
+                                    r.label("lsp-compared-after-detour");
+                                    let total: usize = lsp.diags.values().map(|d| d.len()).sum();
+                                    if (total >= 1) != !source_ok {
+                                        r.fail(Failure::new(
+                                            format!("c13:language-server-disagrees-after-detour:{}", expected.verdict()),
+                                            format!(
+                                                "after the main module was opened as {detour:?} and changed back to the text of the case, the pipeline says {}, oal-lsp has {total} diagnostic(s) published: {:?}",
+                                                expected.verdict(),
+                                                lsp.diags
+                                            ),
+                                        ));
+                                    }
+                                }
+                                Err(LspError::Died(st, err)) => r.fail(Failure::new(format!("c13:language-server-died:{st}"), err)),
+                                Err(LspError::Timeout) => r.label("lsp-timeout-inconclusive"),
+                                Err(LspError::Protocol(m)) => r.fail(Failure::new("c13:lsp-protocol", m)),
+                            }
                         }
                     }
                     Err(LspError::Died(st, err)) => r.fail(Failure::new(format!("c13:language-server-died:{st}"), err)),
